@@ -492,6 +492,21 @@ def c11_cases(tier, seed):
                 ops.append("save %d" % i)
         ops += ["new 8 100 0 0", "load 8"]
         cases.append((" ; ".join(ops), {"max": mx, "igs": igs, "igd": igd}))
+    # a session whose only pending line repeats the last line ANOTHER session has written meanwhile (the merge drops it), then
+    # more writes by others, then the first session appends again -- with nothing new, or after another line
+    for k in range(max(6, n // 60)):
+        mx = rng.choice([4, 6, 10])
+        cfg = "%d 0 1" % mx
+        x, y, z = [0x78, 0x30 + k % 10], [0x79], [0x7a]
+        ops = ["new 9 " + cfg, "add 9 " + enc([0x69, 0x30]), "save 9", "new 0 " + cfg, "load 0", "new 1 " + cfg, "load 1",
+               "add 1 " + enc(x), "append 1", "add 0 " + enc(x), "append 0"]
+        if k % 3 == 1:
+            ops += ["append 0"]
+        ops += ["add 1 " + enc(y), "append 1"]
+        if k % 2:
+            ops += ["add 0 " + enc(z)]
+        ops += ["append 0", "add 1 " + enc(x), "append 1", "append 0", "new 8 100 0 0", "load 8"]
+        cases.append((" ; ".join(ops), {"max": mx, "igs": 0, "igd": 1}))
     return cases
 
 
